@@ -18,20 +18,22 @@ from harness import tlc, traces
 from harness.core import Ctx
 from harness.tlc import tla_set as S, tla_lit as L
 
-SCENARIOS = [
-    (["start", "stop"], 1, []),
-    (["start", "stop", "start"], 2, [1]),
-    (["start", "stop", "start", "stop"], 2, [1]),
-    (["stop", "start", "start"], 1, []),
-    (["start", "start", "stop"], 2, []),
-    (["start", "stop", "start"], 2, []),
+SCENARIOS = [      # (script, events, failing handlers, handlers that call stop())
+    (["start", "stop"], 1, [], []),
+    (["start", "stop", "start"], 2, [1], []),
+    (["start", "start"], 2, [], [1]),
+    (["start", "stop", "start", "stop"], 2, [1], []),
+    (["stop", "start", "start"], 1, [], []),
+    (["start", "stop", "start"], 3, [], [2]),
+    (["start", "start", "stop"], 2, [], []),
 ]
 STRICT = ["NoStuckState", "NoLostStart", "EndedFinal", "ThreadGoneAfterEnd", "RefusedWroteNothing"]
 KNOWN = ["NoStuckStateK", "NoLostStartK", "EndedFinalK", "ThreadGoneK", "RefusedWroteNothing"]
 
 
-def consts(script, nev, faulty, fixes=(), anyto=False):
-    return {"Script": L(script), "NEvents": str(nev), "Faulty": S(faulty), "Fixes": S(list(fixes)), "AnyTimeout": "TRUE" if anyto else "FALSE"}
+def consts(script, nev, faulty, stoppers=(), fixes=(), anyto=False):
+    return {"Script": L(script), "NEvents": str(nev), "Faulty": S(faulty), "Stoppers": S(list(stoppers)), "Fixes": S(list(fixes)),
+            "AnyTimeout": "TRUE" if anyto else "FALSE"}
 
 
 def spec_x(v):
@@ -90,6 +92,18 @@ def observables(ctx, sc, label, case):
         probs.append(("lost_start", f"{starts_ok} start() calls returned normally but the run thread ran {segments} segment(s); final run_state {st['rs']}"))
     if st["rep"] == "ENDED" and (st["rs"] != "ENDED" or "w" not in st["done"]):
         probs.append(("ended_not_final", f"replication ENDED but run_state = {st['rs']}, run thread finished = {'w' in st['done']}"))
+    log = SCHED.log
+    for k0, d in enumerate(log):
+        if d["t"] == "w" and d["k"] == "exec" and int(d["x"]) in getattr(sc.model, "stoppers", ()):
+            seg = []
+            for e in log[k0 + 1:]:
+                if e["t"] == "w" and e["k"] == "W" and e["v"] == "rs" and e["x"] in ("STOPPED", "ENDED"):
+                    break
+                seg.append(e)
+            accepted = any(e["t"] == "w" and e["k"] == "sleep" for e in seg) or any(e["t"] == "w" and e["k"] == "W" and e["x"] == "STOPPING" for e in seg)
+            refused_in_handler = not accepted and any(e["t"] == "w" and e["k"] == "R" and e["v"] == "rs" and e["x"] not in ("STARTED", "STARTING") for e in seg[:2])
+            if any(e["t"] == "w" and e["k"] == "exec" for e in seg) and not refused_in_handler:
+                probs.append(("stop_from_handler_ignored", f"the handler of event {d['x']} called stop() but the run thread went on executing events in the same segment"))
     for key, detail in probs:
         k = None
         if "race|late_stopping_write" in sig and key in ("stuck_state", "ended_not_final"):
@@ -100,11 +114,11 @@ def observables(ctx, sc, label, case):
     return probs
 
 
-def replay_behaviour(ctx, beh, script, nev, faulty, label):
+def replay_behaviour(ctx, beh, script, nev, faulty, label, stoppers=()):
     """execute one SimThreads.tla behaviour on the real threads; returns 'ok' | 'diverged' | 'error'"""
     from harness.drive_threads import Scenario
     from harness.sched import SCHED, Deadlock
-    sc = Scenario(script, nevents=nev, faults=faulty)
+    sc = Scenario(script, nevents=nev, faults=faulty, stoppers=stoppers)
     case = {"script": script, "nevents": nev, "faulty": faulty, "steps": [dict(s["last"]) for _, _, s in beh[1:]]}
     status = "ok"
     try:
@@ -150,6 +164,9 @@ class FairChooser:
         self.rng, self.p = rng, p_caller
 
     def choose(self, sc, runnable):
+        pw = sc.pending("w") if "w" in runnable else None
+        if pw and pw["k"] == "sleep":                 # the run thread waiting for itself (stop() from a handler): only a time-out ends it
+            return "w", self.rng.random() < 0.5
         pc = sc.pending("c") if "c" in runnable else None
         if pc and pc["k"] == "sleep":
             if "w" in runnable:
@@ -173,8 +190,8 @@ def overlap_layer(ctx: Ctx):
         diverged = 0
         nbeh = 0
         all_traces = {}
-        for si, (script, nev, faulty) in enumerate(SCENARIOS[: ctx.pick(4, 6)]):
-            c = consts(script, nev, faulty)
+        for si, (script, nev, faulty, stoppers) in enumerate(SCENARIOS[: ctx.pick(5, 7)]):
+            c = consts(script, nev, faulty, stoppers)
             # exhaustive: strict invariants expose the known races, the K-invariants must hold
             files, mod, cfg = tlc.mc_files("MC_SimThreads", "SimThreads", c, invariants=KNOWN)
             r = tlc.run(mod, cfg, extra_files=files, workers=8, timeout=900)
@@ -192,7 +209,7 @@ def overlap_layer(ctx: Ctx):
             ctx.add_tlc(f"SimThreads {script} -simulate", r2)
             behs += sb
             for bi, beh in enumerate(behs):
-                status = replay_behaviour(ctx, beh, script, nev, faulty, f"scenario {script} events={nev} faulty={faulty} behaviour {bi}")
+                status = replay_behaviour(ctx, beh, script, nev, faulty, f"scenario {script} events={nev} faulty={faulty} stoppers={stoppers} behaviour {bi}", stoppers)
                 nbeh += 1
                 ctx.evaluations += 1
                 ctx.distinct.add(("thr", si, tuple((s["last"]["t"], s["last"]["k"]) for _, _, s in beh[1:])))
@@ -204,7 +221,7 @@ def overlap_layer(ctx: Ctx):
             trs = []
             for k in range(ctx.pick(60, 600)):
                 rng = random.Random(ctx.seed * 1000 + si * 100 + k)
-                sc = Scenario(script, nevents=nev, faults=faulty)
+                sc = Scenario(script, nevents=nev, faults=faulty, stoppers=stoppers)
                 try:
                     sc.run_schedule(FairChooser(rng, p_caller=rng.choice([0.2, 0.5, 0.8])).choose, max_steps=6000)
                     observables(ctx, sc, f"random schedule {k} of {script} events={nev} faulty={faulty}", {"script": script, "log": log_to_trace(SCHED.log)})
